@@ -138,6 +138,8 @@ pub struct FaultLog {
     pub unclassified: usize,
     /// attempts in which a multi-datagram reply was cut to its first datagram
     pub partial_hits: usize,
+    /// replies of several datagrams whose last datagram was replaced by a malformed one (mangle 10)
+    pub tail_hits: usize,
 }
 
 pub struct Faulty {
@@ -245,6 +247,30 @@ impl Responder for Faulty {
                     }
                 }
                 // an empty reply: no valid reply of any protocol is empty
+                // a reply of several datagrams whose LAST datagram has a body no parser can accept (Unreal 2 lists: a UCS-2 string
+                // announcing five characters with one byte behind it); replies of one datagram: the fixed malformed reply
+                Fault::Malformed if self.mangle == 10 => {
+                    let n_dg = out.conn.inbox.len();
+                    self.inner.on_send(proto, peer, nth, data, out);
+                    let produced = out.conn.inbox.len() - n_dg;
+                    if produced >= 2 && self.family == Family::Unreal2 && proto == Proto::Udp {
+                        if let Some(last) = out.conn.inbox.back_mut() {
+                            last.truncate(5);
+                            last.extend_from_slice(&[0x85, 0x61]);
+                        }
+                        self.log.borrow_mut().tail_hits += 1;
+                    } else {
+                        out.conn.inbox.truncate(n_dg);
+                        let m = malformed(self.family, self.unit, self.step);
+                        match proto {
+                            Proto::Udp => out.datagram(m),
+                            Proto::Tcp => {
+                                out.stream(&m);
+                                out.close();
+                            }
+                        }
+                    }
+                }
                 Fault::Malformed if self.mangle == 5 => {
                     match proto {
                         Proto::Udp => out.datagram(Vec::new()),
